@@ -192,6 +192,28 @@ def build_harness(name="verifh", moddir=None, pkg="./cmd/verifh", goenv=None, go
     return rc == 0, out, binp
 
 
+INSTRUMENTED = ["localsubscriber.go", "local.go", "bolt.go", "subscriberlist.go"]
+
+
+def build_sched_harness():
+    """Regenerate the instrumented sources from /repo's current working tree (yield points before every statement,
+    lock calls routed through the scheduler, buffer capacity 2) and build cmd/verifs with them overlaid."""
+    os.makedirs(WORK, exist_ok=True)
+    ok, out, yb = build_harness("yieldify", pkg="./cmd/yieldify")
+    if not ok:
+        return False, out, None
+    ov = os.path.join(WORK, "ov")
+    shutil.rmtree(ov, ignore_errors=True)
+    rc, out, _ = run([yb, "-repo", REPO, "-out", ov, "-runtime", os.path.join(HARNESS, "overlay", "zz_vsched.go.txt"),
+                      "-setconst", "outBufferLength=2"] + INSTRUMENTED, cwd=WORK)
+    if rc != 0:
+        return False, "yieldify failed: " + out, None
+    binp = os.path.join(WORK, "verifs")
+    rc, out, _ = run(["go", "build", "-tags", "verif", "-overlay", os.path.join(ov, "overlay.json"), "-o", binp, "./cmd/verifs"],
+                     cwd=HARNESS, env=GOENV, timeout=1500)
+    return rc == 0, out, binp
+
+
 def run_driver(binp, prop, seed, n, tier, outdir, only=None, timeout=3000, extra_args=None):
     shutil.rmtree(outdir, ignore_errors=True)
     os.makedirs(outdir, exist_ok=True)
